@@ -9,8 +9,9 @@
       re-creates X-Forwarded-* / Forwarded for the upstream; the removal of the
       client's headers by httputil.ReverseProxy when Rewrite is set).
 
-    Faithful to the code as it is.  [fixed_F1 = false] is the pinned tree
-    (finding C09-F1), [fixed_F1 = true] the candidate repair fixes/C09-F1.diff.
+    Faithful to the code as it is: [fixed_F1 = true] is the code as it is
+    (fix: e501d3a = fixes/C09-F1.diff); [fixed_F1 = false] is the loader as
+    pinned before that commit, kept for the two witnesses.
 
     Oracles (data of a case, never axioms): net.ParseIP / net.ParseCIDR on the
     configured entry strings and on the peer host ([parse_ip], [parse_cidr]),
